@@ -12,6 +12,7 @@ warnings.simplefilter('ignore')
 NAN = -2000000000
 S = 100000000            # 1e8: probabilities and CDF values
 FAMS = ('Clayton', 'Frank', 'Gumbel')
+FAMS4 = FAMS + ('Independence',)      # the parameterless fourth family: in the checks whose property says "every family" (C07, C08)
 
 
 def fx(a, scale=S, lim=2.0e9):
@@ -26,6 +27,8 @@ def fx(a, scale=S, lim=2.0e9):
 
 
 def tau_of(fam, theta):
+    if fam == 'Independence':
+        return 0.0
     if fam == 'Clayton':
         return theta / (theta + 2.0)
     if fam == 'Gumbel':
@@ -39,6 +42,14 @@ def make(fam, theta):
     an instance with a past: it held another parameter and answered every kind of query with it before it was given this one -
     the laws speak of the parameter the object has now"""
     import copulas.bivariate as cb
+    if fam == 'Independence':
+        # no parameter; fitted (a no-op) on independent uniforms.  The class is imported from its module: the package does not
+        # export it, and Bivariate(copula_type='independence') returns None unless that module was imported before the first
+        # dispatch (the list of subclasses is cached) - an observation outside the listed properties (DESIGN section 15)
+        from copulas.bivariate.independence import Independence
+        m = Independence()
+        m.fit(np.random.RandomState(5).uniform(size=(40, 2)))
+        return m
     m = getattr(cb, fam)()
     if int(abs(float(theta)) * 7919) % 2:
         other = {'Clayton': 2.5, 'Gumbel': 3.0, 'Frank': -4.0 if theta > 0 else 6.0}[fam]
@@ -62,6 +73,8 @@ def make(fam, theta):
 
 def chain(fam, n):
     """increasing thetas across the property's range: |Kendall tau| <= 0.8, both ends included"""
+    if fam == 'Independence':
+        return [0.0]
     if fam == 'Clayton':
         return list(np.geomspace(1e-3, 8.0, n))
     if fam == 'Gumbel':
